@@ -24,6 +24,7 @@ def runCase (c : Case) : IO Unit := do
   | "pool" => runPool c emit
   | "codes" | "bits" | "repair" | "rpdac" => runCheckStreams c emit
   | "chunks" => runChunkStream c emit
+  | "sweep" => runSweep c emit
   | _ => emit 1 s!"ERR unknown-stream {c.stream}"
 
 partial def loop (h : IO.FS.Stream) (cur : Option Case) : IO Unit := do
